@@ -6,8 +6,11 @@ SizeSeqs(k) == IF k \in {"unary", "server"} THEN { <<3>>, <<9>> }
                ELSE { <<3>>, <<3, 9>>, <<9, 3, 3>> }
 MCInit == \E p \in Protos, k \in {"unary", "client", "server", "bidi"}, f \in {"err", "ctxc", "ctxd"} :
             \E sz \in SizeSeqs(k) : \E c \in 0..(EndOf([sizes |-> sz], Len(sz)) + 1) :
-              InitWith([proto |-> p, kind |-> k, sizes |-> sz, cut |-> c, fault |-> f])
-MCSpec == MCInit /\ [][Next]_vars
-GenSpec == MCInit /\ [][FALSE]_vars
+              InitWith([proto |-> p, kind |-> k, sizes |-> sz, cut |-> c, fault |-> f, poison |-> 0])
+PoisonInit == \E p \in Protos, k \in {"unary", "client", "server", "bidi"} :
+                \E sz \in SizeSeqs(k) : \E i \in 1..Len(sz) :
+                  InitWith([proto |-> p, kind |-> k, sizes |-> sz, cut |-> 1000, fault |-> "err", poison |-> i])
+MCSpec == (MCInit \/ PoisonInit) /\ [][Next]_vars
+GenSpec == (MCInit \/ PoisonInit) /\ [][FALSE]_vars
 Emit == PrintT(ToJson(sc))
 =============================================================================
